@@ -400,3 +400,152 @@ def run_cell(body, ev, watch, max_steps=2000):
             break
         bi = nx[0]
     return out
+
+
+def path_within(body, blocks, goals, cut, start=0):
+    """A path start -> goal that stays inside `blocks` (the blocks feasible under a cell) and avoids the `cut` edges, or None."""
+    goals = set(goals)
+    seen = {start}
+    work = [(start, [start])]
+    while work:
+        b, path = work.pop()
+        if b in goals:
+            return path
+        for s_ in body.blocks[b].succs():
+            if s_ in seen or s_ not in blocks or (b, s_) in cut or body.blocks[s_].cleanup:
+                continue
+            seen.add(s_)
+            work.append((s_, path + [s_]))
+    return None
+
+
+def edge_guards_goals(body, accept_edge, reject_edge, goals):
+    """Every way to `goals` takes `accept_edge`: the test block dominates the goals and nothing that can execute after
+    `reject_edge` reaches them (errors built on the rejecting side stay errors through `?` of callers and inlined helpers)."""
+    from . import cfg
+    dom = cfg.dominators(body)
+    blk = accept_edge[0]
+    if not all(blk in dom.get(g, ()) for g in goals):
+        return False
+    return not (feasible_from(body, [reject_edge[1]]) & set(goals))
+
+
+_VARIANT_ADTS = ("std::result::Result", "std::option::Option", "std::ops::ControlFlow")
+
+
+def variant_reach(body, starts=(0,), cut=frozenset(), limit=40000):
+    """Blocks reachable from `starts` without crossing `cut` edges, exploring (block, known variants) states: the variant
+    of every Result / Option / ControlFlow local is tracked along each path (aggregate construction, moves, `?`'s
+    Try::branch and from_residual) and a switch on the discriminant of a local whose variant is known takes that arm
+    only.  This is what makes `Err(e)?`, early returns inside inlined helpers and desugared adaptors precise where plain
+    graph reachability merges the Ok and the Err path at the helper's return."""
+    facts = body.facts
+
+    def vname_of_discr(pl_ty, d):
+        t = facts.types[pl_ty] if isinstance(pl_ty, int) else {}
+        for v in t.get("variants", []) or []:
+            if v["discr"] == d:
+                return v["name"]
+        return None
+    seen = set()
+    out = set()
+    work = [(s, frozenset()) for s in starts]
+    n = 0
+    while work and n < limit:
+        n += 1
+        bi, envf = work.pop()
+        if (bi, envf) in seen:
+            continue
+        seen.add((bi, envf))
+        out.add(bi)
+        b = body.blocks[bi]
+        if b.cleanup:
+            continue
+        env = dict(envf)       # local -> variant name ; ("d", local) -> local whose discriminant it holds
+        for st in b.stmts:
+            if st["k"] != "assign":
+                continue
+            pl = st["place"]
+            if pl["p"]:
+                continue
+            l = pl["l"]
+            rv = st["rv"]
+            env.pop(l, None)
+            env.pop(("d", l), None)
+            if rv["k"] == "agg" and rv.get("ak") == "adt" and rv.get("path") in _VARIANT_ADTS:
+                env[l] = rv.get("vname")
+            elif rv["k"] == "use":
+                src = rv["op"].get("move") or rv["op"].get("copy")
+                if src and not src["p"] and src["l"] in env:
+                    env[l] = env[src["l"]]
+            elif rv["k"] == "discr" and not rv["place"]["p"]:
+                env[("d", l)] = (rv["place"]["l"], rv["place"].get("ty"))
+        t = b.term
+        if t is None:
+            continue
+        k = t["k"]
+        nxt = []
+        if k == "switch":
+            op = t["discr"].get("move") or t["discr"].get("copy")
+            decided = None
+            if op and not op["p"] and ("d", op["l"]) in env:
+                src, sty = env[("d", op["l"])]
+                if src in env:
+                    # which discriminant value has this variant?
+                    ty = facts.types[sty] if isinstance(sty, int) else {}
+                    for v in ty.get("variants", []) or []:
+                        if v["name"] == env[src]:
+                            decided = v["discr"]
+            if decided is not None:
+                tg = t["otherwise"]
+                for c, x in t["targets"]:
+                    if c == decided:
+                        tg = x
+                nxt = [tg]
+            else:
+                nxt = [x for _, x in t["targets"]] + [t["otherwise"]]
+                # learn the variant on the taken edge
+                if op and not op["p"] and ("d", op["l"]) in env:
+                    src, sty = env[("d", op["l"])]
+                    for c, x in t["targets"]:
+                        vn = vname_of_discr(sty, c)
+                        if vn is not None and (bi, x) not in cut:
+                            e2 = dict(env)
+                            e2[src] = vn
+                            work.append((x, frozenset(e2.items())))
+                    if (bi, t["otherwise"]) not in cut:
+                        work.append((t["otherwise"], frozenset(env.items())))
+                    continue
+        elif k == "call":
+            d = t["dest"]
+            if not d["p"]:
+                env.pop(d["l"], None)
+                env.pop(("d", d["l"]), None)
+                cp = callee_path(t) or ""
+                a0 = t["args"][0] if t["args"] else None
+                src = (a0.get("move") or a0.get("copy")) if a0 else None
+                sv = env.get(src["l"]) if src and not src["p"] else None
+                if cp.endswith("::from_residual"):
+                    env[d["l"]] = "Err" if "Result" in cp else "None"
+                elif cp.endswith("::branch") and sv is not None:
+                    env[d["l"]] = "Break" if sv in ("Err", "None") else "Continue"
+                elif cp.split("::")[-1] in ("map_err", "ok_or", "ok_or_else") and sv is not None:
+                    env[d["l"]] = "Err" if sv in ("Err", "None") else "Ok"
+                elif cp.split("::")[-1] == "ok" and sv is not None and "Result" in cp:
+                    env[d["l"]] = "None" if sv == "Err" else "Some"
+            if t.get("target") is not None:
+                nxt = [t["target"]]
+        elif k in ("goto", "drop", "assert"):
+            if t.get("target") is not None:
+                nxt = [t["target"]]
+        ef = frozenset(env.items())
+        for x in nxt:
+            if (bi, x) in cut:
+                continue
+            work.append((x, ef))
+    return out
+
+
+def edge_guards_goals(body, accept_edge, reject_edge, goals):
+    """Every feasible way to `goals` takes `accept_edge` (variant-tracking reachability with the edge removed)."""
+    return not (variant_reach(body, cut=frozenset([accept_edge])) & set(goals))
